@@ -228,12 +228,10 @@ def direct_oracle(cases):
                 continue
             try:
                 db2, want = pyspec.step(db, o)
-            except pyspec.Undefined:
-                db = None
-                continue
-            except Exception:
-                db = None
-                continue
+            except Exception:          # pyspec.Undefined (the meaning is silent: a user callable raised, invalid arguments) or an oracle limitation
+                if _kind(o)[0] in WRITE_KINDS:
+                    db = None          # what the write did is unknown: resynchronise at the next iteration output
+                continue               # a read leaves the contents alone: keep judging the following steps
             checked += 1
             if not pyspec.same(want, x):
                 bad.append((ci, k, want))
